@@ -1,9 +1,121 @@
-/- driver handler of the `choice` stream (line protocol, see Main.lean) -/
+/- driver handler of the `choice` stream (line protocol, see Main.lean)
+
+  choice  state  <Choices array>  <Default: string|null>  <input>  <context>
+      → next <state name> | fail States.NoChoiceMatched | unsupported
+  choice  rule   <rule object>  <input>  <context>   → true | false | unsupported
+
+A rule object is what the States Language writes: `Variable`, exactly one operator
+member, and (top level only) `Next`.  Anything else is `unsupported`.
+-/
 import AslModel.Drv.Util
+import AslModel.Choice
 namespace Asl.Drv.Choice
-open Asl
+open Asl Asl.Drv
+
+def relOf (s : String) : Option Rel :=
+  if s = "Equals" then some .eq
+  else if s = "LessThan" then some .lt
+  else if s = "GreaterThan" then some .gt
+  else if s = "LessThanEquals" then some .le
+  else if s = "GreaterThanEquals" then some .ge
+  else none
+
+/-- operator name (without any `Path` suffix) → comparison -/
+def cmpOf (s : String) : Option Cmp :=
+  if s = "BooleanEquals" then some .boolEq
+  else if s = "StringMatches" then some .strMatches
+  else if s.startsWith "Numeric" then (relOf (s.drop 7).toString).map .num
+  else if s.startsWith "String" then (relOf (s.drop 6).toString).map .str
+  else if s.startsWith "Timestamp" then (relOf (s.drop 9).toString).map .ts
+  else none
+
+def isOf (s : String) : Option IsOp :=
+  if s = "IsPresent" then some .present
+  else if s = "IsNull" then some .null
+  else if s = "IsNumeric" then some .numeric
+  else if s = "IsString" then some .string
+  else if s = "IsBoolean" then some .boolean
+  else if s = "IsTimestamp" then some .timestamp
+  else none
+
+/-- paths the model's reader covers: `$`, definite reference paths, and the same after `$$` -/
+def pathSupported (p : Str) : Bool :=
+  match p with
+  | '$' :: '$' :: rest => rest = [] || (parseRef ('$' :: rest)).isSome
+  | '$' :: rest => rest = [] || (parseRef p).isSome
+  | _ => false
+
+partial def decodeRule (top : Bool) (j : Json) : Option Rule :=
+  match j with
+  | .obj kvs =>
+    let kvs' := kvs.filter fun (key, _) => !(top && key = "Next".toList)
+    let var := objGet kvs' "Variable".toList
+    let ops := kvs'.filter fun (key, _) => key ≠ "Variable".toList
+    if top && !(objHas kvs "Next".toList) then none else
+    match ops with
+    | [(key, v)] =>
+      let name := String.ofList key
+      if name = "And" || name = "Or" then
+        match var, v with
+        | none, .arr xs =>
+          let rs := xs.map (decodeRule false)
+          if rs.all Option.isSome then
+            let rs' := rs.filterMap id
+            some (if name = "And" then .and rs' else .or rs')
+          else none
+        | _, _ => none
+      else if name = "Not" then
+        match var with
+        | none => (decodeRule false v).map .not
+        | some _ => none
+      else
+        match var with
+        | some (.str vp) =>
+          if !pathSupported vp then none else
+          match isOf name with
+          | some t =>
+            match v with
+            | .bool b => some (.is t vp b)
+            | _ => none
+          | none =>
+            match cmpOf name with
+            | some c => some (.cmp c vp v)
+            | none =>
+              if name.endsWith "Path" then
+                match cmpOf (name.dropEnd 4).toString, v with
+                | some .strMatches, _ => none
+                | some c, .str pp => some (.cmpPath c vp pp)
+                | _, _ => none
+              else none
+        | _ => none
+    | _ => none
+  | _ => none
+
+def decodeChoices : List Json → Option (List (Rule × Str))
+  | [] => some []
+  | j :: rest =>
+    match decodeRule true j, j.get "Next", decodeChoices rest with
+    | some r, some (.str n), some rs => some ((r, n) :: rs)
+    | _, _, _ => none
 
 def handle : List String → String
+  | ["state", choices, dflt, input, ctx] =>
+    match rd choices, rdOptStr dflt, rd input, rd ctx with
+    | some (.arr cs), some d, some i, some c =>
+      match decodeChoices cs with
+      | some rules =>
+        match choose { input := i, ctx := c } rules d with
+        | .ok n => "next\t" ++ String.ofList n
+        | .error e => "fail\t" ++ e.name
+      | none => "unsupported"
+    | _, _, _, _ => "unsupported"
+  | ["rule", rule, input, ctx] =>
+    match rd rule, rd input, rd ctx with
+    | some r, some i, some c =>
+      match decodeRule false r with
+      | some r' => if evalRule { input := i, ctx := c } r' then "true" else "false"
+      | none => "unsupported"
+    | _, _, _ => "unsupported"
   | _ => "bad-op"
 
 end Asl.Drv.Choice
